@@ -30,6 +30,54 @@ def build_engine():
     return build.link([rt, wl, op] + objs, os.path.join(build.BIN, "thrsim"), ["-no-pie", "-pthread"] + ["-Wl,--wrap=" + w for w in WRAPS])
 
 
+def build_l2():
+    """layer L2: same objects, real threads, linked against the real libtsan (cross-validation sample)"""
+    objs = build.lib_objects("tsanhooks")
+    iflags = build.VARIANTS["tsanhooks"] + build.INCLUDES
+    pflags = ["-std=c++14", "-w", "-O2", "-g1", "-fno-omit-frame-pointer"] + build.INCLUDES
+    rt, wl, op = build.compile_many([(os.path.join(HERE, "rt_real.cpp"), pflags, ""), (os.path.join(HERE, "workload.cpp"), pflags, ""),
+                                     (os.path.join(HERE, "ops.cpp"), iflags, "")])
+    return build.link([rt, wl, op] + objs, os.path.join(build.BIN, "thrsim_tsan"), ["-fsanitize=thread", "-pthread"])
+
+
+def l2_exec(l2bin, manifest, plan, tag=""):
+    """one execution of a plan with real threads under ThreadSanitizer -> (signature or '', stderr tail)"""
+    import subprocess
+    import tempfile
+    os.makedirs(RUN, exist_ok=True)
+    fd, pf = tempfile.mkstemp(prefix="l2plan-", suffix=".txt", dir=RUN)
+    with os.fdopen(fd, "w") as f:
+        f.write("\n".join(plan) + "\n")
+    env = dict(os.environ, TSAN_OPTIONS="exitcode=66 halt_on_error=1 second_deadlock_stack=1")
+    try:
+        p = subprocess.run([l2bin, "", manifest, "--exec-one", pf], stdout=subprocess.PIPE, stderr=subprocess.PIPE, env=env, timeout=600)
+        rc, out, err = p.returncode, p.stdout.decode(errors="replace"), p.stderr.decode(errors="replace")
+    except subprocess.TimeoutExpired:
+        rc, out, err = None, "", "timeout"
+    finally:
+        try:
+            os.unlink(pf)
+        except OSError:
+            pass
+    if rc == 66 or "ThreadSanitizer" in err:
+        kind = "data_race" if "data race" in err else "report"
+        fn = ""
+        for l in err.splitlines():
+            l = l.strip()
+            if l.startswith("#0 "):
+                fn = l.split()[1].split("(")[0]
+                break
+        return "l2:tsan:%s:%s" % (kind, fn or "?"), err[-4000:]
+    if rc is None:
+        return "l2:hang", err
+    if rc != 0:
+        return "l2:death:%s" % orch.cause_of(rc), err[-3000:]
+    sig = [l[2:] for l in out.splitlines() if l.startswith("S ")]
+    if sig and sig[0] != "OK":
+        return "l2:" + sig[0], ""
+    return "", ""
+
+
 def corpus_manifest():
     from clisim import driver as cd
     return cd.corpus_manifest()
@@ -62,6 +110,19 @@ def main(a):
     try:
         if a.replay:
             rep = json.load(open(a.replay))
+            if rep.get("engine") == "thrsim-l2":
+                # real threads: not deterministic, a report may need several executions to show again
+                l2bin = build_l2()
+                got = ""
+                for attempt in range(40):
+                    got, err = l2_exec(l2bin, manifest, rep["ops"])
+                    if got == rep.get("signature"):
+                        break
+                print("replay %s: expected %s, got %s after %d execution(s)" % (a.replay, rep.get("signature"), got, attempt + 1))
+                if got == rep.get("signature"):
+                    print("VIOLATION property=%s replay=%s" % (PROP, a.replay))
+                    return 1
+                return 0
             r = orch.exec_plan(binary, rep["ops"], ENV, args=args, timeout=900)
             print("replay %s: expected %s, got %s" % (a.replay, rep.get("signature"), r["sig"]))
             for d in r["detail"] + r["trace"][:6]:
@@ -133,6 +194,73 @@ def main(a):
                                                          pin_first=True)
         harness_errors += herr
 
+        # ---- layer L2: a sample of the same plans with REAL concurrent threads under the real ThreadSanitizer
+        # (independent race detector, also sees what its interceptors catch inside uninstrumented libstdc++/libc);
+        # the bitwise oracles of the workload run there as well.  Cross-validation only: real threads are not
+        # deterministic, so a report counts only if it shows again when the same plan is executed again.
+        import concurrent.futures as cf
+        t1 = time.time()
+        l2stats = {"plans": 0, "executions": 0, "reports": 0, "reports_reproduced": 0, "reports_not_reproduced": 0}
+        l2bin = None
+        try:
+            l2bin = build_l2()
+        except Exception as e:  # libtsan missing or unusable here: the layer is skipped, the deciding engine is unaffected
+            l2stats["skipped"] = str(e).splitlines()[0][:200]
+        if l2bin and not orch.saturated():
+            nl2 = 96 if not thorough else 3000
+            reps = 3 if not thorough else 2
+
+            def l2_job(k):
+                plan = orch.dump_plan(binary, "DUMP %d %d" % (a.seed, 5000000 + k), ENV, args=args)
+                res = []
+                for _ in range(reps):
+                    res.append(l2_exec(l2bin, manifest, plan))
+                return k, plan, res
+            found = {}
+            with cf.ThreadPoolExecutor(max_workers=nw) as ex:
+                for k, plan, res in ex.map(l2_job, range(nl2)):
+                    l2stats["plans"] += 1
+                    l2stats["executions"] += len(res)
+                    for sig, err in res:
+                        if sig:
+                            l2stats["reports"] += 1
+                            found.setdefault(sig, (k, plan, err))
+            probe = l2_exec(l2bin, manifest, ["# sched random 200 1 1 0", "shared 0 thdm 7", "task 0 ev calculate_amu_2loop s 0", "task 1 ev calculate_amu_2loop s 0"])
+            l2stats["tsan_runtime_usable"] = probe[0] == ""
+            if probe[0]:
+                l2stats["skipped"] = "probe plan failed under ThreadSanitizer: " + probe[0]
+                found = {}
+            for sig, (k, plan, err) in sorted(found.items())[:6]:
+                again = 0
+                for _ in range(20):
+                    s2, e2 = l2_exec(l2bin, manifest, plan)
+                    if s2 == sig:
+                        again += 1
+                        break
+                if not again:
+                    l2stats["reports_not_reproduced"] += 1
+                    print("NOTE real-thread layer: %s on plan %d did not show again in 20 executions (not counted)" % (sig, 5000000 + k))
+                    continue
+                l2stats["reports_reproduced"] += 1
+                if any(v["sig"].split(":")[0] in ("race", "mismatch", "modified", "death") for v in viol) and len(viol) >= 3:
+                    continue  # the deciding engine already reports this tree; keep the output short
+                # minimise by dropping ops while the report still shows within 6 executions
+                def shows(ops):
+                    for _ in range(6):
+                        if l2_exec(l2bin, manifest, ops)[0] == sig:
+                            return True
+                    return False
+                small, ncalls = orch.ddmin(plan[1:], lambda ops: shows([plan[0]] + ops), budget=40)
+                small = [plan[0]] + small
+                rdir = os.path.join(orch.OUT, "replays", PROP)
+                os.makedirs(rdir, exist_ok=True)
+                safe = "".join(ch if ch.isalnum() or ch in "-_." else "_" for ch in sig)[:100]
+                path = os.path.join(rdir, "%s-run%d.json" % (safe, 5000000 + k))
+                json.dump({"property": PROP, "engine": "thrsim-l2", "signature": sig, "run_index": 5000000 + k, "seed": a.seed, "ops": small, "original_length": len(plan),
+                           "note": "real threads under ThreadSanitizer: not deterministic, the replay command executes the plan up to 40 times", "stderr": err}, open(path, "w"), indent=1)
+                viol.append({"sig": sig, "path": path, "ops": len(small), "from_ops": len(plan), "count": 1})
+        t_l2 = time.time() - t1
+
         counters = rnd["stats"].get("counters", {})
         cover = rnd["stats"].get("cover", {})
         wall = time.time() - t0
@@ -168,6 +296,7 @@ def main(a):
                                 "exception path inside a task": sum(v for k, v in cover.items() if k.split("|")[2] not in ("value", "skipped"))},
                 "determinism_gate": {"runs_compared": compared, "hash_mismatches": len(mism)},
                 "worker_deaths": rnd["deaths"],
+                "layer_L2_real_threads_under_ThreadSanitizer": dict(l2stats, wall_s=round(t_l2, 1), what="a sample of seeded plans executed with real concurrent pthreads (randomised yields at operation boundaries), the same -fsanitize=thread library objects linked against the real libtsan; bitwise oracles of the workload active; cross-validation of the simulator's own happens-before detector, not the deciding step"),
                 "real_vs_stub": {"real": ["every translation unit of libgm2calc from the working tree (compiled with -fsanitize=thread call-outs)", "libstdc++, libm, Eigen, Boost", "glibc malloc (interposed only to clear shadow state on free)"],
                                  "simulated": ["OS scheduler (one caller thread runs at a time; the seeded scheduler picks the next at every instrumented access)",
                                                "pthread mutex / rwlock / once, __cxa_guard_*, atomics (happens-before model)", "time/clock/rand sources (logical)"],
